@@ -127,8 +127,10 @@ def neKind (h : Hist) (mode use : String) (a b : Rows) : String :=
   let moved := !onlyA.isEmpty ∧ !extra.isEmpty ∧
     (onlyA.all fun x => (flat b).any fun y => y.1 != x.1 && y.2 == x.2) ∧
     (extra.all fun y => (flat a).any fun x => x.1 != y.1 && x.2 == y.2)
+  -- a sample of A sits under ANOTHER series in B (and is missing under its own): refs were confused
+  let movedAny := onlyA.any fun x => (extra.any fun y => y.1 != x.1 && y.2 == x.2)
   if mode = "trunc" ∧ use = "loaded" ∧ subRows a b ∧ !extra.isEmpty then "truncated-snapshot-accepted"
-  else if h.armed ∧ moved then "series-ref-reuse"
+  else if h.armed ∧ (moved ∨ movedAny) then "series-ref-reuse"
   else if pre ∧ !onlyA.isEmpty ∧ mixA ∧ mixB then "series-ref-reuse"
   else if pre ∧ (b.any fun p => cnt b p.1 > 1) ∧ mixA ∧ mixB then "series-ref-reuse"
   else if subRows a b ∧ !extra.isEmpty then
@@ -204,7 +206,7 @@ def judgeLines (ooo : Bool) (pairs : List (String × String)) : Option String :=
         | _ =>
           match bothSides (shown op out) with
           | some (x, y) =>
-            if x = y ∨ (ooo ∧ f.head? ≠ some "q") then none else
+            if x = y ∨ (ooo ∧ f.head? ≠ some "q") ∨ (f.head? = some "win" ∧ winOk (x.replace " " ",") (y.replace " " ",")) then none else
             let kind := match parseRows? x, parseRows? y with
               | some ra, some rb =>
                 -- `b-lost-older-samples` (finding F33): the copy that was opened by WAL replay, shut
